@@ -14,5 +14,5 @@ d=/tmp/sbx-$1
 mkdir -p "$d"
 git -C /repo worktree add --detach "$d/repo" HEAD -q
 rsync -a --exclude .git --exclude '/out/' --exclude '/harness/fuzz/target' /verif/ "$d/verif/"
-sed -i "s#\"/repo/#\"$d/repo/#g" "$d/verif/harness/Cargo.toml" "$d/verif/harness/fuzz/Cargo.toml"
+sed -i "s#\"/repo/#\"$d/repo/#g" "$d/verif/harness/Cargo.toml" "$d/verif/harness/fuzz/Cargo.toml" "$d/verif/harness-min/Cargo.toml"
 echo "$d"
